@@ -337,6 +337,7 @@ def frontend_class(mod, cls, params):
 
 
 REFUSED = {}
+HINTS = []     # parameter points at which the live class deviates from the IR (used by the generators of the gate checks as extra boundary points)
 
 
 def frontend(strict=False):
@@ -474,20 +475,39 @@ SAMPLE_R = [0.0, 0.5, -0.5, math.pi, -math.pi, math.pi / 2, 2 * math.pi, 1e-9, 1
 SAMPLE_V = [(0.0, 0.0, 0.0), (1.0, 0.0, 0.0), (0.0, -2.0, 0.0), (0.0, 0.0, 0.5), (0.3, -0.4, 1.2), (1e-200, 0.0, 0.0), (5.0, 4.0, -3.0)]
 
 
-def sample_envs(params, rng):
+def harvest_constants(cls):
+    """numeric literals that occur in the class body: a rewrite that special-cases a parameter value (`if theta == 0.25: ...`) names that
+    value in its text, so the validation points include every literal, its negative, double and half"""
+    out = []
+    try:
+        c = find_class(parse_src("operator/gates.py"), cls)
+    except TranslationError:
+        return out
+    for n in ast.walk(c):
+        if isinstance(n, ast.Constant) and isinstance(n.value, (int, float)) and not isinstance(n.value, bool):
+            v = float(n.value)
+            if math.isfinite(v) and abs(v) < 1e15:
+                for w in (v, -v, 2 * v, v / 2, v * math.pi, v + 1e-9):
+                    if w not in out:
+                        out.append(w)
+    return out[:40]
+
+
+def sample_envs(params, rng, extra=()):
     import itertools
     pools = []
     for name, k in params:
         if k == "R":
-            pools.append([(name, v) for v in SAMPLE_R + [rng.uniform(-10, 10) for _ in range(6)]])
+            pools.append([(name, v) for v in SAMPLE_R + list(extra) + [rng.uniform(-10, 10) for _ in range(6)]])
         elif k == "V3":
-            pools.append([(name, v) for v in SAMPLE_V + [tuple(rng.uniform(-3, 3) for _ in range(3)) for _ in range(6)]])
+            pools.append([(name, v) for v in SAMPLE_V + [(w, 0.0, 0.0) for w in extra] + [(0.0, w * 0.6, w * 0.8) for w in extra]
+                          + [tuple(rng.uniform(-3, 3) for _ in range(3)) for _ in range(6)]])
         elif k == "N":
             pools.append([(name, v) for v in (0, 1, 2, 3)])
     if not pools:
         return [{}]
     envs = [dict(c) for c in itertools.product(*pools)]
-    return envs[:60]
+    return envs[:150]
 
 
 def validate(ir):
@@ -500,7 +520,7 @@ def validate(ir):
     errs = []
     for cls, d in ir.items():
         K = getattr(G, cls)
-        for env in sample_envs(d["params"], rng):
+        for env in sample_envs(d["params"], rng, harvest_constants(cls)):
             args = [np.array(env[n]) if k == "V3" else env[n] for n, k in d["params"]]
             import inspect
             kw = {n: a for (n, _), a in zip(d["params"], args)}
@@ -513,6 +533,7 @@ def validate(ir):
             got = np.asarray(ev_body(d["mat"], env2), dtype=complex)
             if want.shape != got.shape or not np.allclose(want, got, rtol=0, atol=1e-13):
                 errs.append(f"{cls}.as_matrix IR differs at {env}")
+                HINTS.append({"cls": cls, "env": dict(env)})
                 break
             inv = d["inverse"]
             iw = np.asarray(g.inverse().as_matrix(), dtype=complex)
@@ -526,6 +547,7 @@ def validate(ir):
                 ig = np.asarray(ev_body(ir[k2]["mat"], e3), dtype=complex)
             if iw.shape != ig.shape or not np.allclose(iw, ig, rtol=0, atol=1e-13):
                 errs.append(f"{cls}.inverse IR differs at {env}")
+                HINTS.append({"cls": cls, "env": dict(env)})
                 break
             if bool(g.is_hermitian()) != d["flag"]:
                 errs.append(f"{cls}.is_hermitian IR differs")
